@@ -265,6 +265,20 @@ def eval_case(c):
         w, which = w1(A, B)
         slack = RND * sc + 1e-9 * abs(w)
         return v <= 2.0 * w + slack, {"sw": v, "2*W1": 2.0 * w, "W1 reference": which, "slack": slack}
+    if k == "shared":
+        # the pairwise distances of a triple computed one after the other on the SAME three array objects (as any
+        # pairwise-distance loop does); each must be the definition's value for the numbers the caller put in
+        C = c["C"]
+        a, b, cc = arr(A), arr(B), arr(C)
+        info, ok = {}, True
+        for name, (x, y), (X, Y) in (("sw(A,B)", (a, b), (A, B)), ("sw(B,C)", (b, cc), (B, C)), ("sw(A,C)", (a, cc), (A, C))):
+            with np.errstate(all="ignore"):
+                st, val, _ = call(S().sliced_wasserstein, x, y, M)
+            spec = spec_sw(X, Y, M)
+            tol = RND * scale_of(X, Y) + 1e-300
+            info[name] = {"code": val if st == "err" else float(val), "definition": spec, "tol": tol}
+            ok = ok and st != "err" and math.isfinite(float(val)) and abs(float(val) - spec) <= tol
+        return ok, info
     if k == "representation":
         w = code_sw(A, B, M, dtype=c["dtype"])
         return (not isinstance(w, str)) and abs(v - w) <= RND * sc, {"sw(float64 arrays)": v, "sw(%s arrays)" % c["dtype"]: w, "tol": RND * sc}
@@ -294,6 +308,7 @@ def laws_for(ctx, A, B, C, M):
     out.append(dict(base, kind="translate", t=t))
     out.append(dict(base, kind="scale", lam=r.choice([0.25, 0.5, 2.0, 3.0, 1024.0, 0.1, 7.3, 1e-3, 1e3])))
     out.append(dict(base, kind="triangle", C=C))
+    out.append(dict(base, kind="shared", C=C))
     out.append(dict(base, kind="w1"))
     return out
 
